@@ -385,3 +385,60 @@ def run(repo: Repo, chk: Check) -> None:
     chk.ob('R-GUARD', fpo.qualname, bool(res) and not bad, 'from_python_object of an integer is the big_map with that identifier, for every identifier', fpo.loc,
            {'other_outcomes': bad[:3]}, what=f'BigMapType.from_python_object: an integer identifier does not come back as that identifier: {bad[:1]}')
     chk.minimum('big_map identifier conversions', nb, 3)
+
+    # ---- 6 the enum flag: a union is rendered as the bare name of its active branch only when that loses nothing ----------------------------
+    # OrType.to_python_object drops the payload when `is_enum` is set, so the flag computed by OrType.create_type may be set only when every
+    # leaf reached through nested unions is `unit`.  (The other clauses model the flag by that rule; this one reads it off the code.)
+    chk.set_clause('C12.6')
+    OR = 'pytezos.michelson.types.sum.OrType'
+    oct_ = repo.func(f'{OR}.create_type')
+
+    class EnumHooks(TypeTreeHooks):
+        def __init__(self, repo):
+            super().__init__(repo)
+            self.flags: List[Any] = []
+
+        def call(self, it, callee, args, kwargs, node):
+            r = super().call(it, callee, args, kwargs, node)
+            if r is NotImplemented and 'is_enum' in kwargs:
+                self.flags.append(kwargs['is_enum'])
+                return Sym('created type')
+            return r
+
+    def only_units(args) -> bool:
+        return all(only_units(a.args) if a.prim == 'or' else a.prim == 'unit' for a in args)
+
+    shapes = {
+        'or unit unit': [U(), U()],
+        'or (unit %a) (or (unit %b) (unit %c))': [U(f='a'), t('or', U(f='b'), U(f='c'))],
+        'or (or unit unit) (or unit unit)': [t('or', U(), U()), t('or', U(), U())],
+        'or nat unit': [N(), U()],
+        'or unit (or unit nat)': [U(), t('or', U(), N())],
+        'or (option %maybe unit) (unit %nothing)': [t('option', U(), f='maybe'), U(f='nothing')],
+        'or (list unit) unit': [t('list', U()), U()],
+        'or unit (pair unit unit)': [U(), t('pair', U(), U())],
+        'or (set unit) (or unit unit)': [t('set', U()), t('or', U(), U())],
+        'or unit (or unit (option unit))': [U(), t('or', U(), t('option', U()))],
+        'or (map unit unit) unit': [t('map', U(), U()), U()],
+        'or (lambda unit unit) unit': [t('lambda', U(), U()), U()],
+        'or (contract unit) unit': [t('contract', U()), U()],
+        'or (ticket unit) unit': [t('ticket', U()), U()],
+        'or (big_map unit unit) unit': [t('big_map', U(), U()), U()],
+    }
+    nen = 0
+    for name, targs in shapes.items():
+        hooks = EnumHooks(repo)
+        it = Interp(repo, hooks, max_depth=12)
+        it.max_recursion = 10
+        res = it.run_paths(lambda i: i.call_function(FuncRef(oct_, ClassRef(OR), True), [], {'args': list(targs)}, None, force_inline=True))
+        flags = list(hooks.flags)
+        if not flags or not all(isinstance(f, bool) for f in flags) or any(p.outcome != 'return' for p in res):
+            raise AnalysisError(f'C12: the enum flag of {name} does not reduce to a constant: {[vrepr(f) for f in flags]} {[p.outcome for p in res]}')
+        nen += 1
+        lossless = only_units(targs)
+        ok = lossless or not any(flags)
+        chk.ob('R-TABLE', oct_.qualname, ok, f'{name}: enum flag {flags[0]}, every leaf through nested unions is unit: {lossless}', oct_.loc,
+               {'is_enum': flags, 'all_leaves_unit': lossless},
+               what=f'OrType.create_type marks `{name}` as an enum although a branch carries a payload: to_python_object renders the value as the bare branch '
+                    'name and the payload is lost, so the python object does not convert back to the same value')
+    chk.minimum('enum flag shapes', nen, 15)
